@@ -1,6 +1,7 @@
 package main
 
 import (
+	"time"
 	"bytes"
 	"context"
 	"encoding/json"
@@ -27,6 +28,7 @@ type txOp struct {
 }
 
 type txRunner struct {
+	chanN int // 0: channel 0, n > 0: the n-th logical channel (created through NewChannel with the peer's ack)
 	tr    *Tracer
 	mc    *memConn
 	conn  *tds.Conn
@@ -52,7 +54,26 @@ func (r *txRunner) reset(desc interface{}) error {
 		r.mc.Close()
 	}
 	r.mc = newMemConn()
-	conn, err := tds.NewConnWithTransport(context.Background(), r.mc, newInfo(), false)
+	reader := r.chanN > 0
+	if reader {
+		// the peer acknowledges logical channel setups (header-only PROTACK packet)
+		mc := r.mc
+		var buf []byte
+		mc.onWrite = func(b []byte) {
+			buf = append(buf, b...)
+			for len(buf) >= 8 {
+				hl := int(buf[2])<<8 | int(buf[3])
+				if hl < 8 || hl > len(buf) {
+					break
+				}
+				if buf[0] == 8 {
+					mc.Feed(mkPacket(11, 1, int(buf[4])<<8|int(buf[5]), 0, nil))
+				}
+				buf = buf[hl:]
+			}
+		}
+	}
+	conn, err := tds.NewConnWithTransport(context.Background(), r.mc, newInfo(), reader)
 	if err != nil {
 		return err
 	}
@@ -60,11 +81,17 @@ func (r *txRunner) reset(desc interface{}) error {
 	if err != nil {
 		return err
 	}
+	for i := 0; i < r.chanN; i++ {
+		if ch, err = conn.NewChannel(); err != nil {
+			return err
+		}
+	}
+	r.mc.TakeWrites() // the setup packets are not part of any message
 	r.conn, r.ch = conn, ch
 	r.msg, r.wired, r.next = nil, 0, 0
 	r.tr.Reset(desc)
 	r.scn++
-	r.tr.Emit(Ev{"ev": "Chan", "id": 0, "ps": conn.PacketSize(), "typ": int(ch.CurrentHeaderType), "nr": 0})
+	r.tr.Emit(Ev{"ev": "Chan", "id": ch.VerifChannelID(), "ps": conn.PacketSize(), "typ": int(ch.CurrentHeaderType), "nr": b2i(r.chanN > 0)})
 	return nil
 }
 
@@ -144,17 +171,32 @@ func (r *txRunner) apply(op txOp) {
 	case "Size":
 		ps := op.Body + 8
 		body := encEnvChange([3]string{"\x04", strconv.Itoa(ps), strconv.Itoa(r.conn.PacketSize())})
-		pk := &tds.Packet{Data: body}
-		pk.Header.MsgType = tds.TDS_BUF_RESPONSE
-		pk.Header.Status = tds.TDS_BUFSTAT_EOM
-		pk.Header.Length = uint16(8 + len(body))
-		r.ch.WritePacket(pk)
+		if r.chanN > 0 {
+			// through the transport and the reader goroutine
+			r.mc.Feed(mkPacket(4, 1, r.ch.VerifChannelID(), 0, body))
+			for i := 0; i < 200 && r.conn.PacketSize() != ps; i++ {
+				time.Sleep(5 * time.Millisecond)
+			}
+			time.Sleep(5 * time.Millisecond)
+		} else {
+			pk := &tds.Packet{Data: body}
+			pk.Header.MsgType = tds.TDS_BUF_RESPONSE
+			pk.Header.Status = tds.TDS_BUFSTAT_EOM
+			pk.Header.Length = uint16(8 + len(body))
+			r.ch.WritePacket(pk)
+		}
 		for {
 			if _, err := r.ch.NextPackage(context.Background(), false); err != nil {
 				break
 			}
 		}
 		r.tr.Emit(Ev{"ev": "PacketSize", "ps": ps, "applied": r.conn.PacketSize()})
+	case "FailWrite":
+		// the transport fails after op.N more bytes (C14: failures during a request write)
+		r.mc.mu.Lock()
+		r.mc.failAfter = r.mc.wrote + op.N
+		r.mc.mu.Unlock()
+		r.tr.Emit(Ev{"ev": "WriteFail", "after": op.N})
 	case "Type":
 		r.ch.CurrentHeaderType = tds.PacketHeaderType(op.N)
 		r.tr.Emit(Ev{"ev": "SetType", "typ": op.N})
@@ -256,6 +298,7 @@ func txMain(args []string) error {
 	seed := fs.Int64("seed", 1, "seed")
 	directed := fs.String("directed", "", "directed enumeration: quick | all:<from>:<to>")
 	count := fs.Int("count", 0, "random scenarios")
+	wfail := fs.Int("wfail", 0, "scenarios with a transport failure during a request write")
 	fs.Parse(args)
 	tr, err := NewTracer(*out)
 	if err != nil {
@@ -378,6 +421,10 @@ func txMain(args []string) error {
 			body = 248 + rng.Intn(65527-248+1)
 		}
 		ops := []txOp{{Op: "Size", Body: body}}
+		r.chanN = 0
+		if rng.Intn(4) == 0 {
+			r.chanN = 1 + rng.Intn(3)
+		}
 		for m := 0; m < 1+rng.Intn(4); m++ {
 			var total int
 			switch rng.Intn(4) {
@@ -402,6 +449,17 @@ func txMain(args []string) error {
 				ops = append(ops, txOp{Op: "Size", Body: body})
 			}
 		}
+		if err := r.run(ops); err != nil {
+			return err
+		}
+	}
+	for i := 0; i < *wfail; i++ {
+		body := 248 + rng.Intn(2048)
+		total := 1 + rng.Intn(3*body)
+		after := rng.Intn(total + 8*(total/body+1) + 1)
+		ops := []txOp{{Op: "Size", Body: body}, {Op: "FailWrite", N: after}}
+		ops = txMessage(rng, ops, total, body, rng.Intn(4))
+		r.chanN = 0
 		if err := r.run(ops); err != nil {
 			return err
 		}
